@@ -32,7 +32,8 @@ CONSTANTS Publishers,          \* publisher process ids
           RecheckEpochAfterBegin,   \* repaired: publish re-reads the epoch record after taking the flag
           FlagHeldThroughDbWrite,   \* repaired: the transaction flag is released only after the commit's database write
           RootHashBeforeCommit,     \* repaired: the returned root hash is computed before the commit
-          PrevEpochChecked          \* repaired: a record whose previous version is newer than the target is an error
+          PrevEpochChecked,         \* repaired: a record whose previous version is newer than the target is an error
+          ReadersSeePendingEpoch    \* pinned: a request reads the epoch record pending in the shared transaction log
 
 (* contents are sets of tagged pairs: <<"i", j>> for the initial epochs, <<"p", publisher>> *)
 InitContent(e) == { <<"i", j>> : j \in 1..e }
@@ -73,7 +74,7 @@ Src(k) == IF txnActive /\ k \in DOMAIN txnLog.nodes THEN "txn"
 GetNodeRec(k) == IF Src(k) = "txn" THEN txnLog.nodes[k]
                  ELSE IF Src(k) = "cache" THEN cache.nodes[k]
                  ELSE db.nodes[k]
-AzksSrc == IF txnActive /\ txnLog.azks # 0 THEN "txn"
+AzksSrc == IF ReadersSeePendingEpoch /\ txnActive /\ txnLog.azks # 0 THEN "txn"
            ELSE IF HasCache /\ cache.hasAzks THEN "cache"
            ELSE "db"
 GetAzks == IF AzksSrc = "txn" THEN txnLog.azks ELSE IF AzksSrc = "cache" THEN cache.azks ELSE db.azks
@@ -181,8 +182,14 @@ PNode(p) ==
            /\ UNCHANGED <<db, txnActive, faults, published, ret, rcache>>
 
 (* batch_set([Azks, value states]) into the log; (repaired) root hash from the log; drain the log *)
-PDrain(p) ==
+PSetAzks(p) ==
   /\ pc[p] = "p_set_azks"
+  /\ txnLog' = [txnLog EXCEPT !.azks = loc[p].epoch + 1]
+  /\ pc' = [pc EXCEPT ![p] = "p_drain"]
+  /\ UNCHANGED <<db, txnActive, cache, rcache, loc, faults, published, ret>>
+
+PDrain(p) ==
+  /\ pc[p] = "p_drain"
   /\ loc' = [loc EXCEPT ![p].recs = txnLog.nodes, ![p].azks = loc[p].epoch + 1]
   /\ txnLog' = EmptyLog
   /\ txnActive' = IF FlagHeldThroughDbWrite THEN txnActive ELSE FALSE
@@ -233,7 +240,7 @@ PRet(p) ==
 
 IsRemote(r) == r \in RemoteReaders
 RC(r) == IF IsRemote(r) THEN rcache ELSE cache
-RAzksSrc(r) == IF ~IsRemote(r) /\ txnActive /\ txnLog.azks # 0 THEN "txn"
+RAzksSrc(r) == IF ReadersSeePendingEpoch /\ ~IsRemote(r) /\ txnActive /\ txnLog.azks # 0 THEN "txn"
                ELSE IF (IsRemote(r) \/ HasCache) /\ RC(r).hasAzks THEN "cache"
                ELSE "db"
 RGetAzks(r) == IF RAzksSrc(r) = "txn" THEN txnLog.azks ELSE IF RAzksSrc(r) = "cache" THEN RC(r).azks ELSE db.azks
@@ -285,7 +292,7 @@ RPoll ==
 
 Next ==
   \/ \E p \in Publishers : PReadEpoch(p) \/ PReadVersions(p) \/ PBegin(p) \/ PRecheck(p) \/ PNode(p)
-                           \/ PDrain(p) \/ PDbWrite(p) \/ PRootAfter(p) \/ PRet(p)
+                           \/ PSetAzks(p) \/ PDrain(p) \/ PDbWrite(p) \/ PRootAfter(p) \/ PRet(p)
   \/ \E r \in Readers : RReadEpoch(r) \/ RNode(r)
   \/ RPoll
 
